@@ -94,6 +94,7 @@ type SimAPI struct {
 	// OnMutate is called (outside locks) after every applied mutating call.
 	OnMutate func(c Call)
 	watches  []watchRec
+	Binds    []string // every applied pods/binding create
 	// batch: calls recorded while a concurrent phase is running are sorted canonically on flush
 	batch []Call
 }
@@ -278,32 +279,7 @@ func (s *SimAPI) install(f *k8stesting.Fake, actor string) {
 // shim adds API-server behaviour the tracker lacks.
 func (s *SimAPI) shim(a k8stesting.Action, objReact k8stesting.ReactionFunc) (bool, runtime.Object, error) {
 	if da, ok := a.(k8stesting.DeleteActionImpl); ok && da.GetResource().Resource == "pods" && da.GetSubresource() == "" {
-		// graceful deletion: a pod that is on a node and not yet terminated stays, marked terminating,
-		// until the kubelet actor removes it; everything else is removed at once.
-		obj, err := s.Tracker.Get(PodGVR, da.GetNamespace(), da.GetName())
-		if err != nil {
-			return true, nil, err
-		}
-		pod := obj.(*corev1.Pod)
-		grace0 := da.DeleteOptions.GracePeriodSeconds != nil && *da.DeleteOptions.GracePeriodSeconds == 0
-		if pod.Spec.NodeName != "" && !grace0 && pod.Status.Phase != corev1.PodSucceeded && pod.Status.Phase != corev1.PodFailed {
-			if pod.DeletionTimestamp == nil {
-				pod = pod.DeepCopy()
-				now := metav1.NewTime(time.Now())
-				pod.DeletionTimestamp = &now
-				g := int64(30)
-				pod.DeletionGracePeriodSeconds = &g
-				if err := s.Tracker.Update(PodGVR, pod, pod.Namespace); err != nil {
-					return true, nil, err
-				}
-			}
-			return true, nil, nil
-		}
-		if err := s.Tracker.Delete(PodGVR, da.GetNamespace(), da.GetName()); err != nil {
-			return true, nil, err
-		}
-		s.gcOwned(pod)
-		return true, nil, nil
+		return true, nil, s.DeletePod(da.GetNamespace(), da.GetName(), da.DeleteOptions.GracePeriodSeconds)
 	}
 	if ua, ok := a.(k8stesting.UpdateActionImpl); ok && ua.GetSubresource() == "status" {
 		// a real API server only takes .status from an UpdateStatus request
@@ -340,8 +316,67 @@ func (s *SimAPI) shim(a k8stesting.Action, objReact k8stesting.ReactionFunc) (bo
 	return objReact(a)
 }
 
+// DeletePod: graceful deletion. A pod that is on a node and not yet terminated stays, marked
+// terminating, until the kubelet actor removes it; everything else is removed at once.
+func (s *SimAPI) DeletePod(ns, name string, grace *int64) error {
+	obj, err := s.Tracker.Get(PodGVR, ns, name)
+	if err != nil {
+		return err
+	}
+	pod := obj.(*corev1.Pod)
+	grace0 := grace != nil && *grace == 0
+	if pod.Spec.NodeName != "" && !grace0 && pod.Status.Phase != corev1.PodSucceeded && pod.Status.Phase != corev1.PodFailed {
+		if pod.DeletionTimestamp == nil {
+			pod = pod.DeepCopy()
+			now := metav1.NewTime(time.Now())
+			pod.DeletionTimestamp = &now
+			g := int64(30)
+			pod.DeletionGracePeriodSeconds = &g
+			return s.Tracker.Update(PodGVR, pod, pod.Namespace)
+		}
+		return nil
+	}
+	if err := s.Tracker.Delete(PodGVR, ns, name); err != nil {
+		return err
+	}
+	s.gcOwned(pod)
+	return nil
+}
+
+// BindPod: the pods/binding sub-resource.
+func (s *SimAPI) BindPod(p *corev1.Pod, b *corev1.Binding) error {
+	obj, err := s.Tracker.Get(PodGVR, p.Namespace, p.Name)
+	if err != nil {
+		return err
+	}
+	pod := obj.(*corev1.Pod)
+	if b.UID != "" && pod.UID != b.UID {
+		return apierrors.NewConflict(schema.GroupResource{Resource: "pods"}, p.Name, fmt.Errorf("uid mismatch"))
+	}
+	if pod.Spec.NodeName != "" {
+		return apierrors.NewConflict(schema.GroupResource{Resource: "pods/binding"}, p.Name, fmt.Errorf("pod %s is already assigned to node %q", p.Name, pod.Spec.NodeName))
+	}
+	if pod.DeletionTimestamp != nil {
+		return apierrors.NewConflict(schema.GroupResource{Resource: "pods/binding"}, p.Name, fmt.Errorf("pod %s is being deleted", p.Name))
+	}
+	pod = pod.DeepCopy()
+	pod.Spec.NodeName = b.Target.Name
+	pod.Status.Conditions = append(pod.Status.Conditions, corev1.PodCondition{Type: corev1.PodScheduled, Status: corev1.ConditionTrue})
+	s.mu.Lock()
+	s.Binds = append(s.Binds, pod.Namespace+"/"+pod.Name+"->"+b.Target.Name)
+	s.mu.Unlock()
+	return s.Tracker.Update(PodGVR, pod, pod.Namespace)
+}
+
 // gcOwned removes BindRequests owned by a removed pod (owner-reference garbage collection).
 func (s *SimAPI) gcOwned(pod *corev1.Pod) {
+	for _, cm := range s.ConfigMaps() {
+		for _, or := range cm.OwnerReferences {
+			if or.Kind == "Pod" && or.UID == pod.UID {
+				_ = s.Tracker.Delete(CMGVR, cm.Namespace, cm.Name)
+			}
+		}
+	}
 	for _, br := range s.BindRequests() {
 		for _, or := range br.OwnerReferences {
 			if or.Kind == "Pod" && or.UID == pod.UID {
@@ -445,6 +480,16 @@ func (s *SimAPI) Queues() []*schedv2.Queue {
 		out = append(out, &l.Items[i])
 	}
 	sort.Slice(out, func(i, j int) bool { return out[i].Name < out[j].Name })
+	return out
+}
+
+func (s *SimAPI) ConfigMaps() []*corev1.ConfigMap {
+	l := s.list(CMGVR, "ConfigMap", "").(*corev1.ConfigMapList)
+	out := make([]*corev1.ConfigMap, 0, len(l.Items))
+	for i := range l.Items {
+		out = append(out, &l.Items[i])
+	}
+	sort.Slice(out, func(i, j int) bool { return out[i].Namespace+"/"+out[i].Name < out[j].Namespace+"/"+out[j].Name })
 	return out
 }
 
